@@ -846,36 +846,38 @@ fn check_greedy(cap: usize, tl: usize, calls: &[CallRec], out: &mut Outcome) {
             _ => (None, false),
         })
         .collect();
-    let expect = greedy_packing(cap, tl, &ops);
     let writes: Vec<&Attempt> = calls.iter().flat_map(|c| c.attempts.iter()).filter(|a| a.ok).collect();
-    // exact-fill direct writes make the real writer emit a batch one call earlier than the greedy
-    // model, never a different batch; so compare batch contents only
-    let mut exp_payload_lens: Vec<usize> = Vec::new();
-    for b in &expect {
-        if b.len() == 1 && b[0] > usize::MAX / 2 {
-            let i = usize::MAX - b[0];
-            exp_payload_lens.push(ops[i].0.unwrap());
-        } else {
-            exp_payload_lens.push(b.iter().map(|i| ops[*i].0.unwrap() + tl).sum());
-        }
-    }
     let got: Vec<usize> = writes.iter().map(|a| a.payload.as_ref().map(|p| p.len()).unwrap_or(0)).collect();
-    // zero-length batches cannot occur (zero-length lines are not generated)
-    let mut exp_sorted_ok = exp_payload_lens == got;
-    if !exp_sorted_ok {
-        // bypass writes are not ordered relative to buffered ones: compare as multisets + count
-        let mut a = exp_payload_lens.clone();
-        let mut b = got.clone();
-        a.sort_unstable();
-        b.sort_unstable();
-        exp_sorted_ok = a == b;
-    }
     out.probe("greedy_checked");
-    if !exp_sorted_ok {
-        out.violate(
-            &["C19"],
-            "linebuf.not-greedy",
-            format!("datagram sizes {got:?} differ from greedy in-order packing {exp_payload_lens:?} (cap {cap}, terminator {tl} bytes)"),
-        );
+    // two admissible treatments of an oversize metric: it passes the buffered lines (the shipped
+    // writer), or it first sends them (an order-preserving variant); either way in-order packing
+    let mut shown = Vec::new();
+    for barrier in [false, true] {
+        let expect = crate::linemodel::greedy_packing_mode(cap, tl, &ops, barrier);
+        let mut exp_payload_lens: Vec<usize> = Vec::new();
+        for b in &expect {
+            if b.len() == 1 && b[0] > usize::MAX / 2 {
+                let i = usize::MAX - b[0];
+                exp_payload_lens.push(ops[i].0.unwrap());
+            } else {
+                exp_payload_lens.push(b.iter().map(|i| ops[*i].0.unwrap() + tl).sum());
+            }
+        }
+        if exp_payload_lens == got {
+            return;
+        }
+        if !barrier {
+            // bypass writes are not ordered relative to buffered ones: compare as multisets + count
+            let mut a = exp_payload_lens.clone();
+            let mut b = got.clone();
+            a.sort_unstable();
+            b.sort_unstable();
+            if a == b {
+                return;
+            }
+        }
+        shown.push(exp_payload_lens);
     }
+    out.violate(&["C19"], "linebuf.not-greedy", format!("datagram sizes {got:?} differ from greedy in-order packing {:?} (or {:?} if an oversize metric first sends what is buffered) (cap {cap}, terminator {tl} bytes)", shown[0], shown[1]));
 }
+
